@@ -5,12 +5,14 @@ package proxy
 import (
 	"bytes"
 	"fmt"
+	"io"
 	"net/http"
 	"net/http/httptest"
 	"net/url"
 	"reflect"
 	"strings"
 	"testing"
+	"time"
 
 	"github.com/fabiolb/fabio/noroute"
 	"github.com/fabiolb/fabio/zzverif/ev"
@@ -357,5 +359,95 @@ func TestVerifC07Response(t *testing.T) {
 		}
 	}
 	r.proxy.Config.NoRouteStatus = 0
+	L.End(true)
+}
+
+// the same pass-through over real sockets on both sides, including interim
+// (1xx) upstream responses and Expect: 100-continue uploads, which a
+// ResponseRecorder cannot represent
+func TestVerifC07Wire(t *testing.T) {
+	L := ev.Begin("C07", "c07-wire", "exploration",
+		"real listener in front of the real HTTPProxy and a real upstream: final status {200,201,204,404,422,500} x interim response {none, 103 Early Hints, two 103s} x method {GET, POST with 2 kB body and Expect: 100-continue, POST chunked} x response body {empty, 5 kB}; the Go http client on a real connection must see the upstream's final status, headers and body. non-trivial = case with an interim response or an Expect header")
+	r := newRig()
+	defer r.close()
+	var interim int
+	var final int
+	var body []byte
+	var got []byte
+	r.up.Config.Handler = http.HandlerFunc(func(w http.ResponseWriter, req *http.Request) {
+		got, _ = io.ReadAll(req.Body)
+		for i := 0; i < interim; i++ {
+			w.Header().Set("Link", "</style.css>; rel=preload")
+			w.WriteHeader(http.StatusEarlyHints)
+		}
+		w.Header().Del("Link")
+		w.Header().Set("X-Up", "1")
+		w.WriteHeader(final)
+		w.Write(body)
+	})
+	front := httptest.NewServer(r.proxy)
+	defer front.Close()
+	r.setTable("route add svc / http://" + r.upAddr + "/\n")
+	cl := &http.Client{Transport: &http.Transport{DisableCompression: true, ExpectContinueTimeout: 5 * time.Second}, Timeout: 30 * time.Second}
+	for _, st := range []int{200, 201, 204, 404, 422, 500} {
+		for _, in := range []int{0, 1, 2} {
+			for _, m := range []string{"GET", "POST-expect", "POST-chunked"} {
+				for _, b := range [][]byte{nil, big(5000)} {
+					interim, final, body, got = in, st, b, nil
+					if st == 204 {
+						body = nil
+					}
+					var req *http.Request
+					var sent []byte
+					switch m {
+					case "GET":
+						req, _ = http.NewRequest("GET", front.URL+"/x", nil)
+					case "POST-expect":
+						sent = big(2048)
+						req, _ = http.NewRequest("POST", front.URL+"/x", bytes.NewReader(sent))
+						req.Header.Set("Expect", "100-continue")
+					case "POST-chunked":
+						sent = big(3000)
+						req, _ = http.NewRequest("POST", front.URL+"/x", io.NopCloser(bytes.NewReader(sent)))
+						req.ContentLength = -1
+					}
+					resp, err := cl.Do(req)
+					L.Case()
+					d := map[string]interface{}{"method": m, "upstream_final_status": st, "interim_103_responses": in, "response_body": len(body)}
+					if in > 0 || m == "POST-expect" {
+						L.NontrivialKey(fmt.Sprint(st, in, m, len(b)))
+					}
+					if err != nil {
+						d["err"] = err.Error()
+						L.Violation("request-failed-over-the-wire", d)
+						continue
+					}
+					rb, _ := io.ReadAll(resp.Body)
+					resp.Body.Close()
+					d["client_saw_status"] = resp.StatusCode
+					L.Outcome(fmt.Sprint(resp.StatusCode))
+					L.Sample(d)
+					cls := ""
+					if in > 0 {
+						cls = "/after-interim-response"
+					}
+					if resp.StatusCode != st {
+						L.Violation("response-status-changed"+cls, d)
+					}
+					if !bytes.Equal(rb, body) {
+						d["got_len"] = len(rb)
+						L.Violation("response-body-changed"+cls, d)
+					}
+					if resp.Header.Get("X-Up") != "1" {
+						L.Violation("end-to-end-response-header-changed"+cls, d)
+					}
+					if !bytes.Equal(got, sent) {
+						d["upstream_got_body"] = len(got)
+						L.Violation("request-body-changed/"+m, d)
+					}
+				}
+			}
+		}
+	}
 	L.End(true)
 }
